@@ -6,7 +6,7 @@ Definition sub_t := tok -> option (list tok * list span * nat).      (* children
 
 Definition set_nested (Q : quirks) (f : option nested_t) : quirks :=
   mkQ (q_zst_noop Q) (q_look_trunc Q) (q_trymap_drop Q) (q_trymap_pos Q) (q_maperr_drop Q) (q_exact_noalt Q)
-      (q_emptychoice_none Q) (q_memo_take Q) (memo_on Q) f.
+      (q_emptychoice_none Q) (q_memo_take Q) (memo_on Q) (memo_strict Q) f.
 
 (* the inner parse: a fresh InputRef over the children (cursor 0, no errors, fresh memo table), sharing the user
    state and the context with the outer one (InputRef::with_input) *)
